@@ -368,6 +368,7 @@ func raceIDs(seed int64, G, iters int) (acq int, dupID int64, bad string) {
 	ids := make([][]int64, G)
 	bads := make([]string, G)
 	var wg sync.WaitGroup
+	start := make(chan struct{})
 	for g := 0; g < G; g++ {
 		wg.Add(1)
 		go func(g int) {
@@ -378,6 +379,15 @@ func raceIDs(seed int64, G, iters int) (acq int, dupID int64, bad string) {
 				}
 			}()
 			r := vh.NewRng(seed*1000 + int64(g))
+			// phase 1, maximal contention on the ID counter: all goroutines start together and do
+			// nothing but acquire and release single nodes (every release resets = one newNodeID)
+			<-start
+			for it := 0; it < iters*60; it++ {
+				n := idr.CreateNode(idr.ElementNode, "t")
+				ids[g] = append(ids[g], n.ID)
+				idr.RemoveAndReleaseTree(n)
+			}
+			// phase 2: small trees built and released concurrently
 			for it := 0; it < iters; it++ {
 				root := idr.CreateNode(idr.DocumentNode, "r")
 				ids[g] = append(ids[g], root.ID)
@@ -401,6 +411,7 @@ func raceIDs(seed int64, G, iters int) (acq int, dupID int64, bad string) {
 			}
 		}(g)
 	}
+	close(start)
 	wg.Wait()
 	seen := map[int64]bool{}
 	for g := 0; g < G; g++ {
